@@ -97,6 +97,9 @@ class ContainerBase:
     def mk_copy(self, copy_node: bool = False) -> ContainerBase:
         """Make a copy of self."""
         copied = copy.copy(self)
+        # the copy must not share nested (mutable) data with the original
+        for prop_name, _ in self.sorted_container_properties():
+            setattr(copied, prop_name, copy.deepcopy(getattr(self, prop_name)))
         if copy_node and self.node is not None:
             copied.node = xml_utils.copy_element(self.node)
         return copied
